@@ -14,6 +14,7 @@ import (
 	"net"
 	"strings"
 	"sync"
+	"sync/atomic"
 	"time"
 
 	dirkam "github.com/attestantio/vouch/services/accountmanager/dirk"
@@ -40,13 +41,26 @@ type dirkSigner struct {
 	clientKey  []byte
 }
 
-// ListAccounts lists the whole wallet of every path (stateless).
+// dirkListMode is what the signer does with wallet w2: 0 lists it, 1 lists it
+// as empty, 2 fails.  It is only stored between repetitions (scripted by the
+// scenario); the server only loads it.
+var dirkListMode atomic.Uint32
+
+// ListAccounts lists the whole wallet of every path.
 func (s *dirkSigner) ListAccounts(_ context.Context, in *pb.ListAccountsRequest) (*pb.ListAccountsResponse, error) {
 	resp := &pb.ListAccountsResponse{State: pb.ResponseState_SUCCEEDED}
 	for _, path := range in.GetPaths() {
 		wallet := path
 		if i := strings.Index(path, "/"); i >= 0 {
 			wallet = path[:i]
+		}
+		if wallet == "w2" {
+			switch dirkListMode.Load() {
+			case 1:
+				continue
+			case 2:
+				return nil, strErr("scripted signer failure")
+			}
 		}
 		for _, a := range s.accts {
 			if a.wallet != wallet {
@@ -154,7 +168,9 @@ func buildDirk(sc *Scenario) (world, error) {
 	if dirkErr != nil {
 		return nil, dirkErr
 	}
-	vm, err := newValidatorsManager(&valTable{accts: accts, exited: sc.P["exited"]})
+	f := newFaults(sc.P)
+	dirkListMode.Store(0)
+	vm, err := newValidatorsManager(&valTable{accts: accts, exited: sc.P["exited"], f: f})
 	if err != nil {
 		return nil, err
 	}
@@ -169,7 +185,7 @@ func buildDirk(sc *Scenario) (world, error) {
 		dirkam.WithClientCert(dirkSig.clientCert),
 		dirkam.WithClientKey(dirkSig.clientKey),
 		dirkam.WithCACert(dirkSig.caPEM),
-		dirkam.WithValidatorsManager(vm),
+		dirkam.WithValidatorsManager(laggingVM{vm, time.Duration(sc.P["vmlag"]) * time.Microsecond}),
 		dirkam.WithDomainProvider(domainProvider{}),
 		dirkam.WithFarFutureEpochProvider(farProvider{}),
 		dirkam.WithCurrentEpochProvider(newClock(32, sc.P["epoch"]*32)),
@@ -180,7 +196,18 @@ func buildDirk(sc *Scenario) (world, error) {
 	if got, err := mgr.ValidatingAccountsForEpoch(context.Background(), 3); err != nil || len(got) == 0 {
 		return nil, fmt.Errorf("the dirk account manager knows no validating account after construction (%v)", err)
 	}
-	return &amWorld{accts: accts, mgr: mgr}, nil
+	return &amWorld{accts: accts, mgr: mgr, name: "dirk", nilSeen: make([]string, len(sc.Roles)),
+		beforeRep: func(rep int) {
+			mode := uint32(0)
+			if f.hit("dirk-list-empty", uint64(rep)) {
+				mode = 1
+			} else if f.hit("dirk-list-err", uint64(rep)) {
+				mode = 2
+			}
+			dirkListMode.Store(mode)
+		},
+		stop: func() { dirkListMode.Store(0) },
+	}, nil
 }
 
 func init() {
@@ -190,11 +217,14 @@ func init() {
 		reps:   12,
 		roles:  accountManagerRoles(),
 		params: func(t *rapid.T) map[string]uint64 {
-			return map[string]uint64{
+			p := map[string]uint64{
 				"specs":  rapid.Uint64Range(0, uint64(len(wSpecs)-1)).Draw(t, "specs"),
 				"exited": rapid.Uint64Range(0, 255).Draw(t, "exited"),
 				"epoch":  rapid.SampledFrom([]uint64{0, 5, 6}).Draw(t, "epoch"),
+				"vmlag":  rapid.SampledFrom([]uint64{0, 0, 200}).Draw(t, "vmlag"),
 			}
+			genFaults(t, p)
+			return p
 		},
 		build: buildDirk,
 	})
